@@ -11,8 +11,8 @@ from . import prog_engine as pe
 from .c09 import finish
 
 KINDS = {
-    'C01': ['flat', 'flat', 'multi', 'nested', 'tworoots', 'payload', 'targs:nested_arg', 'targs:generic'],
-    'C02': ['flat', 'multi', 'nested', 'nested', 'unsized', 'split', 'nestedx', 'tworoots', 'payload', 'arity', 'targs:nested_arg'],
+    'C01': ['flat', 'combo', 'multi', 'nested', 'tworoots', 'payload', 'targs:nested_arg', 'targs:generic', 'combo'],
+    'C02': ['flat', 'multi', 'nested', 'nested', 'unsized', 'split', 'nestedx', 'tworoots', 'payload', 'arity', 'targs:nested_arg', 'combo', 'combo'],
     'C04': ['overlap', 'overlap', 'flat', 'nested', 'overlap', 'nestedx', 'targs:nested_arg', 'arity'],
 }
 PREFIX = {'C01': ['C01_'], 'C02': ['C02_'], 'C04': ['C04_']}
@@ -93,7 +93,7 @@ def run_prop(prop, tier, seed, replay=None, make_cases=None):
             stats['macro_rejected'] += 1
             if prop == 'C04' and witness:
                 nontrivial.add(c.invocation())
-            if prop in ('C15', 'C16') and not witness:
+            if (prop in ('C15', 'C16') or c.kind == 'combo') and not witness:
                 # one family per instantiation, pairwise distinguished on a shared key: must be accepted
                 violations.append(dict(case_dump(c), kind='property', request=c.invocation(), errors=o['macro_errors'][:4],
                                        oracle='the invocation (one family per instantiation, blocks pairwise distinguished on a shared key, no probe satisfies two blocks) does not compile: %s' % o['macro_errors'][:3]))
